@@ -233,7 +233,7 @@ func (w *World) Genesis() []byte {
 	sl := slashingtypes.DefaultGenesisState()
 	if w.Cfg.SignedBlocksWindow > 0 {
 		sl.Params.SignedBlocksWindow = w.Cfg.SignedBlocksWindow
-		sl.Params.DowntimeJailDuration = 20 * time.Second
+		sl.Params.DowntimeJailDuration = 60 * time.Second
 	}
 	gs[slashingtypes.ModuleName] = cdc.MustMarshalJSON(sl)
 
